@@ -738,8 +738,14 @@ class Program:
         self.doc = doc
         self.crate = doc["crate"]
         self.bodies = {}
+        self.inlined_bodies = {}
         for bj in doc["bodies"]:
             b = Body(bj, self)
+            if bj.get("inlined_away"):
+                # a helper that does not exist in the pinned tree and was inlined into all its
+                # callers (jbv/inline.py): its code is judged where it now lives
+                self.inlined_bodies[b.path] = b
+                continue
             # paths are unique in practice; keep the first and count duplicates
             if b.path in self.bodies:
                 k = 2
